@@ -167,7 +167,7 @@ def analyse(ctx, replace=None, only=None):
             n_nodes += 1
             R.check(own, "LOCK", "%s:task-node-outside-the-mutex" % name, where(f, e), "the task's list node is touched without the mutex only for a task taken off a list by this very code",
                     "%s looks at / unlinks `%s` without holding thread_data.mutex, for a task it did not take off a list itself: the task may have been scheduled again and sit in the hand-over queue, which other threads are changing - the queue is corrupted (a task is lost) and a cancel request that predates the new scheduling cancels it" % (name, f.show(e.node)))
-    R.require(n_nodes >= 2, "only %d accesses to a task's list node found in thread_scheduler.c" % n_nodes)
+    R.require(n_nodes >= 1, "only %d accesses to a task's list node found in thread_scheduler.c" % n_nodes)
     # ------------------------------------------------------------------ CONFINE (inner scheduler)
     n_inner = 0
     for name, f in sorted(fns.items()):
@@ -839,8 +839,11 @@ MUTANTS = [
     {"name": "run-all-before-cancellations", "file": FILE, "expect": "SHUTDOWN-ORDER",
      "old": "        /* now cancel the tasks. */", "new": "        { uint64_t early_time = 0; aws_high_res_clock_get_ticks(&early_time); aws_task_scheduler_run_all(&scheduler->scheduler, early_time); }\n        /* now cancel the tasks. */"},
     {"name": "record-cancels-a-task-that-already-ran", "file": FILE, "expect": "CANCEL-NODE",
-     "old": "    if (cancellation_node->removed_from_scheduling_queue || task->node.next != NULL || task->abi_extension.scheduled) {\n        aws_task_scheduler_cancel_task(&scheduler->scheduler, task);\n    }",
+     "old": "    if (cancellation_node->removed_from_scheduling_queue || task->abi_extension.scheduled) {\n        aws_task_scheduler_cancel_task(&scheduler->scheduler, task);\n    }",
      "new": "    aws_task_scheduler_cancel_task(&scheduler->scheduler, task);"},
+    {"name": "record-looks-at-the-task-node", "file": FILE, "expect": "LOCK",
+     "old": "    if (cancellation_node->removed_from_scheduling_queue || task->abi_extension.scheduled) {",
+     "new": "    if (cancellation_node->removed_from_scheduling_queue || task->node.next != NULL || task->abi_extension.scheduled) {"},
     {"name": "drain-frees-records-without-cancelling", "file": FILE, "expect": "CANCEL-NODE",
      "old": "        s_process_cancellation(scheduler, cancellation_node);\n        aws_mem_release(scheduler->allocator, cancellation_node);\n    }",
      "new": "        aws_mem_release(scheduler->allocator, cancellation_node);\n    }"},
